@@ -228,6 +228,26 @@ pub fn c17(rng: &mut Rng, thorough: bool, _idx: u64) -> Spec {
         kinds.insert(id.to_string(), serde_json::json!(if long { "mid_txn_long" } else { "mid_txn_short" }));
         clients.push(client(id, "app", "db", "apppw", start, p.steps));
     }
+    // clients caught between the messages of an extended-protocol batch: Parse/Bind/Execute are
+    // out (PgCat only buffers them), Sync follows after the signal
+    for _ in 0..rng.range(0, 1) {
+        id += 1;
+        let mut p = Prog::new(id);
+        p.new_txn();
+        let s = p.select(1, 0, "");
+        p.simple(s);
+        p.new_txn();
+        let mut m = super::base::ext_batch(&mut p, rng, "", "", 1, 0, 0, false, false);
+        m.pop();
+        let t = p.t;
+        p.steps.push(Step::Send { msgs: m, rfq: Some(0), cut: None, abort: false, txn: t });
+        p.steps.push(Step::Wait { ev: "sig".into() });
+        p.think(rng.range(1, 80));
+        p.send(vec![FrontMsg::S]);
+        p.steps.push(Step::Hold { until: None, max_ms: 600_000 });
+        kinds.insert(id.to_string(), serde_json::json!("mid_batch"));
+        clients.push(client(id, "app", "db", "apppw", rng.range(0, t_sig.saturating_sub(30)), p.steps));
+    }
     // clients that came and went before the signal, some of them abruptly, some after an
     // SSLRequest that PgCat declines (the libpq sslmode=prefer dance)
     for _ in 0..rng.range(0, 3) {
@@ -236,6 +256,13 @@ pub fn c17(rng: &mut Rng, thorough: bool, _idx: u64) -> Spec {
         p.new_txn();
         let s = p.select(1, 0, "");
         p.simple(s);
+        if rng.chance(0.5) {
+            // a CancelRequest connection or two, long before the shutdown (drivers send these
+            // on their statement timeouts): they are no clients to wait for, or to forget
+            for _ in 0..rng.range(1, 3) {
+                p.steps.push(Step::Cancel { target: id, key: rng.pick(&["target", "random", "wrongsecret"]).to_string() });
+            }
+        }
         if rng.chance(0.6) {
             p.steps.push(Step::Drop { abort: rng.chance(0.5) });
         } else {
